@@ -32,7 +32,7 @@ CHECKS = {
              "send-twice flag, checksum, padding, sequence numbers in range without immediate repetition over 700+ sends); 12 "
              "unsupported frame lengths per driver must be refused with nothing written; legacy extract() code tables.",
         note="Vendor documents are not available offline; two cells (SCI request alignment, LUBA priority policy) are pinned "
-             "to the reviewed library behaviour. One known finding (legacy Tridonic send-twice bit) is listed.",
+             "to the reviewed library behaviour. One known finding (legacy Tridonic send-twice bit) is listed. Also: the same command object sent twice, commands of application-derived classes, extreme draws of the random first sequence number, the legacy hasseb send() path against a stub HID device, the UniPi register map per bus, one damaged packet before traffic.",
         tech="runtime monitoring: I/O-boundary capture compared with independent wire-format encoders",
         ref="DESIGN.md §4 C18"),
     "C20": dict(
@@ -46,7 +46,7 @@ CHECKS = {
              "(models/watch_ref.py): each forward frame once, in order, decoded under the device type of the immediately "
              "preceding frame only, paired with its answer / no answer, failed flag for broken repeats; per-subscriber logs "
              "equal the reports made while subscribed. 500 histories quick, 20k thorough.",
-        note="Trusts models/watch_ref.py; gaps are never close to the 200 ms boundary.",
+        note="Trusts models/watch_ref.py; gaps are never close to the 200 ms boundary. Also: a twin Tridonic instance whose reports coincide, reports during the connection handshake, gateway chatter in quiet gaps, one-shot subscribers, an instance map filled after the driver was constructed.",
         tech="runtime monitoring: virtual-time injection of report histories + reference transaction parser over the same log",
         ref="DESIGN.md §4 C20"),
     "C15": dict(
@@ -61,7 +61,7 @@ CHECKS = {
              "end-state monitors require all callers finished (a virtual-time stall is a violation), transaction_lock free, "
              "generators closed, exceptions propagated, no error in any callback.",
         note="Explores the schedules the gateway models allow (reports in bus order, picked delays); real kernel/USB timing "
-             "is not reached. A bare serial send() of a device-type command carries no prefix by design and is only recorded.",
+             "is not reached. A bare serial send() of a device-type command carries no prefix by design and is only recorded. Also: refused frames in keep-trying mode under a busy-loop monitor on _send_raw, line-noise runs on LUBA, progress callbacks, Tridonic power-supply switches inside hand-made transactions.",
         tech="runtime monitoring: virtual-time simulation of the real drivers + offline wire-log checker + end-state monitors",
         ref="DESIGN.md §4 C15"),
     "C16": dict(
@@ -87,7 +87,7 @@ CHECKS = {
              "whole stream; no exception may escape, a probe frame after the stream must be delivered, and the result must "
              "not depend on chunking. 5k streams quick, 200k thorough.",
         note="Reference deframers in spec/wire_formats.py; streams with checksum-valid frames whose payload is malformed for "
-             "their type are set aside and counted.",
+             "their type are set aside and counted. Also: two receivers of the same kind fed in turns, observed frames of different lengths with equal value on one receiver, long streams nobody drains.",
         tech="runtime monitoring: reference deframer oracle, chunking-invariance check, probe-frame liveness check",
         ref="DESIGN.md §4 C19"),
     "C09": dict(
@@ -165,7 +165,7 @@ CHECKS = {
              "ResponseError; 12 kinds of non-frame constructor argument must raise TypeError. The space is enumerated "
              "completely in both tiers.",
         note="Families are recognised by the public base classes of dali.command; derived convenience properties "
-             "(mode, control_type, ...) are outside the property and only reported.",
+             "(mode, control_type, ...) are outside the property and only reported. Also: response classes an application declares from the public bases (strict, bitmap, enumerations with gaps, numeric, yes/no), bit names per answer byte from spec/response_bits.py, derived accessors, every accessor read twice and after str().",
         tech="runtime monitoring: exhaustive outcome enumeration against reference semantics; icontract postcondition "
              "on Response.__init__",
         ref="DESIGN.md §4 C06"),
@@ -203,7 +203,7 @@ CHECKS = {
              "instance types 0..31 x data values are decoded under maps with and without the entry, compared with the "
              "device-scheme twin frame, and retried via retry_decode; maps built through ints, address objects, modules "
              "and an initial dict must be the same mapping.",
-        note="Trusts models/events_ref.py.",
+        note="Trusts models/events_ref.py. Also: a map reused after clear(), a kept ambiguous event retried after the map changed, decoding under a claimed device type, and event classes registered by the application.",
         tech="runtime monitoring: enumerated frames against an independent reference decoder; retry/direct equivalence",
         ref="DESIGN.md §4 C12"),
     "C01": dict(
@@ -216,7 +216,7 @@ CHECKS = {
              "must be the generic classes. Each block is decoded in three orders (ascending, shuffled, interleaved with "
              "other contexts) and per-frame digests compared; class-level registries are fingerprinted before/after.",
         note="Trusts spec/iec62386_tables.py for 'not a known command' (judged only in the direction unknown => generic "
-             "class) and the instance-map objects built by the harness.",
+             "class) and the instance-map objects built by the harness. Also: decoded objects are retained and re-read after later decodes; a context-setting frame is decoded immediately before each decode of the interleaved pass; 8 threads decode the same cases at once (1 us switch interval) and must agree with a single thread.",
         tech="runtime monitoring: exhaustive enumeration with per-frame oracle, order-independence digests and registry "
              "fingerprints; light contract wrappers on Frame/address methods",
         ref="DESIGN.md §4 C01"),
@@ -229,7 +229,7 @@ CHECKS = {
              "4.5k illegal argument tuples (one outside each range end, wrong types, wrong address kind, conflicting "
              "event fields) must raise.",
         note="Constructor families are taken from the row kind of spec/iec62386_tables.py; categories of illegal "
-             "arguments are the ones the property lists; other leniencies are reported as observations.",
+             "arguments are the ones the property lists; other leniencies are reported as observations. Also: shards in which the application derived its own command and address classes (every other class must round-trip as before); push-button events given a data= argument.",
         tech="runtime monitoring: constructor->frame->decoder round-trip oracle over enumerated arguments, rejection oracle",
         ref="DESIGN.md §4 C02"),
     "C03": dict(
@@ -241,7 +241,7 @@ CHECKS = {
              "claimed by exactly one row; event frames are compared with an independent Table-3 encoder for all schemes; all "
              "commands built for a row stay alive and their frames are re-read afterwards (no sharing between commands).",
         note="The standard is not available offline: the table is the author's transcription (four send-twice cells are "
-             "pinned to the reviewed library value and marked as such).",
+             "pinned to the reviewed library value and marked as such). Also: the packed bytes of every frame, the module's short alias names, and an import-surface probe (a fresh interpreter importing only dali.gear and dali.device must decode every table row).",
         tech="runtime monitoring: table-driven independent encoder as oracle, both directions, enumerated arguments",
         ref="DESIGN.md §4 C03"),
     "C04": dict(
@@ -252,7 +252,7 @@ CHECKS = {
              "compared with the standard's partition, calling each per-kind decoder to show at most one matches; all "
              "wrong sizes 1..64 must raise IncompatibleFrame leaving the frame intact; all 436x436 object pairs are "
              "compared for equality.",
-        note="Trusts models/addr_ref.py (partition of address/instance bytes).",
+        note="Trusts models/addr_ref.py (partition of address/instance bytes). Also: constructor rejections, frames re-read after single-bit writes, classes derived by the application, and an 8-thread decode stress.",
         tech="runtime monitoring: reference partition oracle, bit-locality check, contract wrappers on add_to_frame",
         ref="DESIGN.md §4 C04"),
     "C05": dict(
@@ -263,7 +263,7 @@ CHECKS = {
              "illegal operations must raise the documented class and leave the frame unchanged, and an icontract "
              "invariant 0 <= value < 2**width runs on every mutator. Exhaustive for small widths, sampled above.",
         note="Trusts the reference model (models/frame_ref.py) and the exception classes documented by the "
-             "docstrings/tests of dali.frame.",
+             "docstrings/tests of dali.frame. Also: equality across the four frame classes and independence of frames built from the same arguments.",
         tech="runtime monitoring: reference-model oracle + icontract invariants on the real Frame methods",
         ref="DESIGN.md §4 C05"),
 }
